@@ -39,9 +39,10 @@ def keysNodup (td : TypeDef) (sels : List Sel) : Bool :=
   nodupB (sels.map fun s => fieldName (memberKey td s)) &&
   nodupB ((sels.filter isFieldSel).map fun s => lowerAll (memberKey td s))
 
-/-- Scalars and enums: the leaf types of responses. -/
+/-- Built-in scalars and enums: the leaf types of responses inside the envelope. -/
 def isLeafKind : TypeDef → Bool
-  | .scalar _ | .enum _ _ => true
+  | .scalar n => n == n_Boolean || n == n_Int || n == n_Float || n == n_String || n == n_ID
+  | .enum _ _ => true
   | _ => false
 
 mutual
@@ -63,7 +64,7 @@ def selOK (S : Schema) (ft : List (Name × Name)) (td : TypeDef) : Sel → Bool
     (match S.lookup (cond.getD td.name) with
      | some ctd => isComposite ctd && membersOK S ft ctd subs && keysNodup ctd subs
      | none => true)
-  | .spread f => startsWithLetter f && (!td.isObject || isKnown S td (lookupFrag ft f))
+  | .spread f => startsWithLetter f && (!td.isObject || isKnown S td (lookupFrag ft f)) && ft.any (fun p => p.1 == f)
 def membersOK (S : Schema) (ft : List (Name × Name)) (td : TypeDef) : List Sel → Bool
   | [] => true
   | s :: rest => selOK S ft td s && membersOK S ft td rest
